@@ -8,6 +8,7 @@
 #include "cache_iface.h"
 
 int cachesim_spurious_pct=0;
+int cachesim_coarse=0;   // 1: yield only before each atomic access (denser search of deep interleavings); 0: before and after
 static __thread long t_cas=0;
 long cachesim_cas_count(){ return t_cas; }
 void cachesim_cas_reset(){ t_cas=0; }
@@ -17,20 +18,20 @@ enum { SITE_LOAD_PRE=10, SITE_LOAD_POST=11, SITE_STORE_PRE=12, SITE_STORE_POST=1
 template<class T> struct sim_atomic{
   T v;
   sim_atomic(){ std::memset(&v,0,sizeof v); }
-  T load(){ sched_yield(SITE_LOAD_PRE); T r=v; sched_yield(SITE_LOAD_POST); return r; }
-  void store(T x){ sched_yield(SITE_STORE_PRE); v=x; sched_yield(SITE_STORE_POST); }
+  T load(){ sched_yield(SITE_LOAD_PRE); T r=v; if(!cachesim_coarse) sched_yield(SITE_LOAD_POST); return r; }
+  void store(T x){ sched_yield(SITE_STORE_PRE); v=x; if(!cachesim_coarse) sched_yield(SITE_STORE_POST); }
 };
 template<class T> bool atomic_compare_exchange_weak(sim_atomic<T>* a,T* expected,T desired){
   sched_yield(SITE_CAS_PRE);
   t_cas++;
   bool ok;
   if(std::memcmp(&a->v,expected,sizeof(T))==0){
-    if(cachesim_spurious_pct>0 && sched_coin(cachesim_spurious_pct)){ ok=false; sched_yield(SITE_CAS_SPUR); return ok; } // spurious failure: *expected already equals the value
+    if(cachesim_spurious_pct>0 && sched_coin(cachesim_spurious_pct)){ ok=false; if(!cachesim_coarse) sched_yield(SITE_CAS_SPUR); return ok; } // spurious failure: *expected already equals the value
     a->v=desired; ok=true;
-    sched_yield(SITE_CAS_OK);
+    if(!cachesim_coarse) sched_yield(SITE_CAS_OK);
   }else{
     *expected=a->v; ok=false;
-    sched_yield(SITE_CAS_FAIL);
+    if(!cachesim_coarse) sched_yield(SITE_CAS_FAIL);
   }
   return ok;
 }
